@@ -108,6 +108,30 @@ def _case(args):
                 eds = H.numeric_edits(spec) + H.link_edits(spec)
                 out["case"] = f"{tname}|after {eds[idx].name}"
                 eds[idx].live(b)
+        if kind == "json":
+            # a saved and re-loaded system explains itself like the original: every input that carried a source still carries it
+            import json as _json
+            from efootprint.api_utils.system_to_json import system_to_json
+            from efootprint.api_utils.json_to_system import json_to_system
+            def sources(system):
+                d = {}
+                for o in H.all_objects(system):
+                    o = getattr(o, "_value", o)
+                    for k, v in o.__dict__.items():
+                        if k in o.calculated_attributes or not hasattr(v, "source"): continue
+                        d[(o.id, k)] = getattr(getattr(v, "source", None), "name", None)
+                return d
+            before = sources(b.system)
+            j = _json.loads(_json.dumps(system_to_json(b.system, save_calculated_attributes=False)))
+            cls_dict, flat = json_to_system(j)
+            s2 = next(iter(cls_dict["System"].values()))
+            after = sources(s2)
+            lost = sorted(f"{k[1]}" for k, v in before.items() if v is not None and after.get(k) is None)
+            fails2, stats2 = check_system(s2)
+            out["case"] = f"{tname}|after a JSON round trip"
+            out["fails"] = fails2 + ([f"input-source-lost-on-load:{lost[:4]} ({len(lost)} inputs)"] if lost else []); out["stats"] = stats2
+            if out["fails"]: out["status"] = "fails"
+            return out
         out["fails"], out["stats"] = check_system(b.system)
         if out["fails"]: out["status"] = "fails"
     except Exception as ex:
@@ -168,6 +192,7 @@ def run(tier, seed, procs=16):
     items = [("services", "services_system", None, None)]
     for tname, spec in T.items():
         items.append(("core", tname, spec, None))
+        if tname in ("single", "custom_sources", "two_independent_chains"): items.append(("json", tname, spec, None))
         n = len(H.numeric_edits(spec) + H.link_edits(spec))
         for i in (range(n) if tier == "thorough" else [i for i in range(n) if (i + seed) % 5 == 0]):
             items.append(("core", tname, spec, i))
